@@ -9,7 +9,7 @@ MAP = {
  "f602519": "C04", "b4ca22f": "C04", "95c53b5": "C04", "6fe31f4": "C07", "e7d1387": "C05", "0eb4ad7": "C10", "8f0912f": "C07", "5f3b449": "C07",
  "ca8063a": "C08", "3f3aa4a": "C13", "7fda8a7": "C08", "92178b6": "C04", "c8615ae": "C11", "7700834": "C14", "34b1ce7": "C15", "72e0d84": "C15",
  "da5e778": "C16", "5629893": "C17", "3b9c2b1": "C17", "b243fbb": "C13", "b398bc1": "C18", "8163a8c": "C18", "4c276c7": "C18", "0157cdd": "C19",
- "e63d1f3": "C20", "312f9d2": "C20", "3cf9f9a": "C11", "5da27eb": "C11", "e7298b9": "C11", "720c038": "C11", "c83ff03": "C11", "46ed363": "C11",
+ "e63d1f3": "C20", "312f9d2": "C20", "3cf9f9a": "C11", "5da27eb": "C11", "e7298b9": "C11", "720c038": "C06", "c83ff03": "C11", "46ed363": "C11",
  "f9d28a4": "C11", "dd3ac36": "C11", "c6ad05f": "C11", "1c53ae6": "C11", "57a1176": "C12",
  "233885c": "C11", "dcc8f47": "C11", "efda6c3": "C11", "6a565f2": "C11",
 }
